@@ -125,39 +125,49 @@ def run(case):
     if fam == "cons_cover":
         Min = "MinPathCoverCycles" if cyc else "MinPathCover"
         Kc = "kPathCoverCycles" if cyc else "kPathCover"
+        lengths = {e: 1 + 2 * (i % 2) for i, e in enumerate(E)}
+        linst = dict(inst, lengths={f"{u}|{v}": lengths[(u, v)] for (u, v) in E})
         for cset in _constraint_sets(inst, cyc):
-            for cov in (1.0, 0.6, 0.5, 0.34):
-                opt = O.min_cover_constrained(g, E, cset, cov) if (cyc or True) else None
-                if not cyc:
-                    # DAG semantics count arcs with multiplicity of the list; constraints here have distinct arcs, so identical
-                    pass
+            variants = [(cov, None) for cov in (1.0, 0.6, 0.5, 0.34)]
+            if not cyc:
+                variants += [(None, 0.5), (None, 0.3), (None, 1.0)]
+            for cov, covlen in variants:
+                if covlen is None:
+                    opt = O.min_cover_constrained(g, E, cset, cov)
+                    kw = {ckey: enc(cset), ccov: cov}
+                    use = inst
+                else:
+                    opt = O.min_cover_constrained(g, E, cset, covlen, lengths=lengths)
+                    kw = {ckey: enc(cset), "subpath_constraints_coverage_length": covlen, "length_attr": "length"}
+                    use = linst
                 if opt is None:
                     continue
-                kw = {ckey: enc(cset), ccov: cov}
-                obs = drivers.observe(dict(inst, cls=Min, kw=kw))
+                obs = drivers.observe(dict(use, cls=Min, kw=kw))
                 tags["cons_cover"] += 1
-                ctx = f"{Min}(constraints={cset}, coverage={cov})"
+                ctx = f"{Min}(constraints={cset}, coverage={cov}, coverage_length={covlen})"
                 if obs["exc"] or not obs["solved"]:
                     viol.append({"kind": "constraint_model_failed", "msg": f"{ctx}: exc={obs['exc']} solved={obs['solved']}; a cover with {opt} routes satisfying the constraints exists"})
                     continue
                 routes = obs["sol"][rkey]
-                errs = preds.route_errors(inst, routes, cyc) + preds.cover_errors(inst, routes, "edge", []) + preds.constraint_errors(routes, cset, cov, cyc)
+                errs = preds.route_errors(inst, routes, cyc) + preds.cover_errors(inst, routes, "edge", [])
+                errs += preds.constraint_errors(routes, cset, cov if cov is not None else 1.0, cyc, lengths if covlen is not None else None, covlen)
                 if errs:
                     viol.append({"kind": "constraint_not_honoured", "msg": f"{ctx}: {errs[0]}", "routes": routes})
                 elif len(routes) != opt:
                     viol.append({"kind": "constrained_optimum_wrong", "msg": f"{ctx}: {len(routes)} routes, the minimum over constraint-satisfying covers is {opt}", "routes": routes})
                 else:
-                    nt.append(f"{key}|{cset}|{cov}")
+                    nt.append(f"{key}|{cset}|{cov}|{covlen}")
                 for k in (opt - 1, opt):
                     if k < 1:
                         continue
-                    o2 = drivers.observe(dict(inst, cls=Kc, kw=dict(kw, k=k)))
+                    o2 = drivers.observe(dict(use, cls=Kc, kw=dict(kw, k=k)))
                     if o2["exc"]:
                         viol.append({"kind": "constraint_model_failed", "msg": f"{Kc}(k={k}, {kw}) raised {o2['exc']}"})
                     elif o2["solved"] != (k >= opt):
                         viol.append({"kind": "constrained_feasibility_wrong", "msg": f"{Kc}(k={k}, constraints={cset}, coverage={cov}): solved={o2['solved']}, constrained optimum is {opt}"})
                     elif o2["solved"]:
-                        errs = preds.constraint_errors(o2["sol"][rkey], cset, cov, cyc)
+                        errs = preds.cover_errors(inst, o2["sol"][rkey], "edge", [])
+                        errs += preds.constraint_errors(o2["sol"][rkey], cset, cov if cov is not None else 1.0, cyc, lengths if covlen is not None else None, covlen)
                         if errs:
                             viol.append({"kind": "constraint_not_honoured", "msg": f"{Kc}(k={k}, constraints={cset}, coverage={cov}): {errs[0]}", "routes": o2["sol"][rkey]})
             if len(viol) > 4:
@@ -250,7 +260,21 @@ def run(case):
                     tags["cons_err"] += 1
                     ctx = f"{cls}(k={k}, constraints={cset}, coverage={cov})"
                     if obs["exc"] or not obs["solved"]:
-                        viol.append({"kind": "constraint_model_failed", "msg": f"{ctx}: exc={obs['exc']} solved={obs['solved']}; constrained optimum {best} exists ({wit})"})
+                        kind = "constraint_model_failed"
+                        if cyc and not obs["exc"]:
+                            # is the model infeasible only because of its per-arc repetition cap (known finding D10)?
+                            from ..known import _reach_caps
+                            caps = _reach_caps(pin)
+                            ccols = [c for c in cols if all(c[i] <= math.floor(caps[E[i]] + 1e-9) for i in range(len(E)))]
+
+                            def tok3(routes, cset=cset, cov=cov, ccols=ccols):
+                                return all(any(sat(dict(zip(E, ccols[j])), c, cov) for j in routes) for c in cset)
+                            bc = None
+                            if ccols:
+                                bc, _ = (fit.lae_opt if "LeastAbs" in cls else fit.mpe_opt)(ccols, fv, [1] * len(E), k, "int", F, tuple_ok=tok3)
+                            if bc is None:
+                                kind = "constrained_optimum_beyond_cap"
+                        viol.append({"kind": kind, "msg": f"{ctx}: exc={obs['exc']} solved={obs['solved']}; constrained optimum {best} exists ({wit})"})
                         continue
                     routes = obs["sol"][rkey]
                     used = max([1] + [c for r in routes for c in collections.Counter(zip(r[:-1], r[1:])).values()])
